@@ -1,5 +1,6 @@
 import Req.Lemmas.Pct
 import Req.Lemmas.Query
+import Req.Lemmas.H1Fidelity
 import Req.Client.Url
 /-!
 C01 — request fidelity: property theorems about the models of the request-building pipeline.
@@ -207,5 +208,187 @@ theorem query_merge_spec (raw : Bytes) (cq rq : QMap) :
 /-- non-vacuity: raw `x=1`, client {a:[1], b:[2]}, request {a:[z, ' &']} . -/
 example : mergeRawQuery [120, 61, 49] [([97], [[49]]), ([98], [[50]])] [([97], [[122], [32, 38]])] =
     [120, 61, 49, 38, 97, 61, 122, 38, 97, 61, 43, 37, 50, 54, 38, 98, 61, 50] := by decide
+
+/-! ### HTTP/1.1 fidelity -/
+
+section H1
+open Req.H1 Req.H1.Origin Req.Validate Req.HeaderSort
+
+/-- facts about the framing triple `newTransferWriter` computes. -/
+theorem framing_inv (r : WReq) (f : Framing) (h : framing r = .ok f) :
+    (f.sendBody = false → f.chunked = false ∧ f.cl = 0) ∧ (f.chunked = true → f.cl = -1) ∧
+    (f.sendBody = true → f.chunked = false → 0 ≤ f.cl → 0 < f.cl) := by
+  unfold framing at h
+  by_cases h1 : (r.contentLength != 0 && !r.hasBody) = true
+  · simp [h1] at h
+  · simp only [h1, Bool.false_eq_true, if_false] at h
+    generalize hc : (if (!r.hasBody) = true then (0:Int) else if (r.contentLength != 0) = true then r.contentLength else -1) = cl0 at h
+    by_cases h2 : cl0 < 0
+    · simp only [h2, if_true] at h
+      by_cases h3 : (methodOrGet r.method == sCONNECT) = true
+      · simp only [h3, if_true, Except.ok.injEq] at h
+        subst h
+        refine ⟨by simp, by simp, ?_⟩
+        intro _ _ h0; simp only at h0; omega
+      · simp only [h3, Bool.false_eq_true, if_false] at h
+        by_cases h4 : methodUsuallyLacksBody (methodOrGet r.method) = true
+        · simp only [h4, if_true] at h
+          by_cases h5 : r.body.isEmpty = true
+          · simp only [h5, if_true, Except.ok.injEq] at h; subst h; simp
+          · simp only [h5, Bool.false_eq_true, if_false, Except.ok.injEq] at h; subst h; simp
+        · simp only [h4, Bool.false_eq_true, if_false, Except.ok.injEq] at h; subst h; simp
+    · simp only [h2, if_false, Except.ok.injEq] at h
+      subst h
+      simp only
+      refine ⟨?_, by simp, ?_⟩
+      · intro hb
+        simp [hb] at hc
+        exact ⟨trivial, hc.symm⟩
+      · intro hb _ _
+        simp [hb] at hc
+        split at hc <;> omega
+
+/-- what an origin observes of a request, as determined by the request itself: the method, the
+request target, every header line in wire order (value without surrounding white space) and the
+body bytes. -/
+def view (r : WReq) (host : Bytes) (f : Framing) : View :=
+  { method := methodOrGet r.method, target := requestTarget r host,
+    fields := (linesOf (h1Fields r host f)).map trimmed,
+    body := if f.sendBody then r.body else [] }
+
+theorem methodOrGet_ne_nil (m : Bytes) : methodOrGet m ≠ [] := by
+  unfold methodOrGet
+  split
+  · decide
+  next h => simpa using h
+
+/-- **h1_fidelity**: for every request whose unvalidated parts are sane (`Valid`), the independent
+origin reads from `serializeH1 r ++ rest` EXACTLY ONE request — the method, the target, every
+header line the writer emitted with its exact value (white space trimmed as HTTP defines), the
+exact body bytes, for Content-Length framing, chunked framing (any read split) and no body — and
+leaves `rest` untouched, whatever `rest` is: nothing the caller supplied can end the header
+block early, add a line or start a second request. -/
+theorem h1_fidelity (r : WReq) (wire host : Bytes) (f : Framing)
+    (hh : wireHost r = .ok host) (hf : framing r = .ok f) (hs : serializeH1 r = .ok wire)
+    (hv : Valid r host f) (rest : Bytes) :
+    parseRequestH1 (wire ++ rest) = some (view r host f, rest) := by
+  -- shape of the serialisation
+  unfold serializeH1 at hs
+  simp only [hh, hf, bind, Except.bind] at hs
+  split at hs
+  · simp [throw, throwThe, MonadExceptOf.throw] at hs
+  cases hb : bodyBytes r f with
+  | error e => simp [hb] at hs
+  | ok bw =>
+    simp only [hb, pure, Except.pure, Except.ok.injEq] at hs
+    subst hs
+    have hline : ∀ b ∈ methodOrGet r.method ++ [32] ++ requestTarget r host ++ [32] ++ sHTTP11, b ≠ 13 := by
+      intro b hb'
+      simp only [List.mem_append, List.mem_singleton] at hb'
+      rcases hb' with (((hb' | hb') | hb') | hb') | hb'
+      · exact (hv.method_ok b hb').2
+      · rw [hb']; decide
+      · exact (hv.target_ok.2 b hb').2
+      · rw [hb']; decide
+      · revert b; decide
+    have e : requestLine r (requestTarget r host) ++ renderFields (h1Fields r host f) ++ crlf ++ bw ++ rest =
+        (methodOrGet r.method ++ [32] ++ requestTarget r host ++ [32] ++ sHTTP11) ++ 13 :: 10 ::
+          (renderLines (linesOf (h1Fields r host f)) ++ crlf ++ (bw ++ rest)) := by
+      simp [requestLine, renderFields_eq, crlf, List.append_assoc]
+    unfold parseRequestH1
+    rw [e, readLine_append _ _ [] hline]
+    simp only [List.reverse_nil, List.nil_append]
+    rw [parseRequestLine_render _ _ (methodOrGet_ne_nil _) hv.target_ok.1
+      (fun b hb' => (hv.method_ok b hb').1) (fun b hb' => (hv.target_ok.2 b hb').1)]
+    simp only
+    rw [parseHeaders_render _ _ [] (h1Fields_lineok r host f (wireHost_no_cr r host hh) hv.ua_ok)]
+    simp only [List.reverse_nil, List.nil_append]
+    rw [framingOf_h1Fields r host f hv]
+    obtain ⟨i1, i2, i3⟩ := framing_inv r f hf
+    -- body
+    unfold bodyBytes at hb
+    by_cases hsb : f.sendBody = true
+    · simp only [hsb, Bool.not_true, Bool.false_eq_true, if_false] at hb
+      by_cases hch : f.chunked = true
+      · simp only [hch, if_true, Except.ok.injEq] at hb
+        subst hb
+        have hcl := i2 hch
+        have hsc : shouldSendContentLength (methodOrGet r.method) f = false := by
+          unfold shouldSendContentLength; simp [hch]
+        simp only [hsc, Bool.false_eq_true, if_false, hch, if_true]
+        rw [decodeBody_chunked]
+        simp [view, hsb]
+      · have hch' : f.chunked = false := by simpa using hch
+        simp only [hch', Bool.false_eq_true, if_false] at hb
+        have hge : 0 ≤ f.cl := by
+          rcases hv.framed hsb with h | h
+          · rw [hch'] at h; exact absurd h (by simp)
+          · exact h
+        have hne1 : (f.cl == -1) = false := by
+          simp only [beq_eq_false_iff_ne, ne_eq]; omega
+        simp only [hne1, Bool.false_eq_true, if_false] at hb
+        split at hb
+        · exact absurd hb (by simp)
+        next hlen =>
+          simp only [Except.ok.injEq] at hb
+          subst hb
+          have hlen' : f.cl = (r.body.length : Int) := by simpa using hlen
+          have hpos := i3 hsb hch' hge
+          have hsc : shouldSendContentLength (methodOrGet r.method) f = true := by
+            unfold shouldSendContentLength
+            simp [hch', hpos]
+          simp only [hsc, if_true]
+          have : f.cl.toNat = r.body.length := by omega
+          rw [this, decodeBody_length]
+          simp [view, hsb]
+    · have hsb' : f.sendBody = false := by simpa using hsb
+      simp only [hsb', Bool.not_false, if_true, Except.ok.injEq] at hb
+      subst hb
+      obtain ⟨hc0, hcl0⟩ := i1 hsb'
+      simp only [hc0, Bool.false_eq_true, if_false, List.nil_append]
+      by_cases hsc : shouldSendContentLength (methodOrGet r.method) f = true
+      · simp only [hsc, if_true, hcl0]
+        simp [decodeBody, view, hsb']
+      · have hsc' : shouldSendContentLength (methodOrGet r.method) f = false := by simpa using hsc
+        simp only [hsc', Bool.false_eq_true, if_false]
+        simp [decodeBody, view, hsb']
+
+/-- non-vacuity: a POST with a chunked body (reads 2+3), a header value with surrounding spaces,
+a pipelined tail. -/
+example :
+    let r : WReq := { method := [80, 79, 83, 84],
+                      url := { scheme := [104], host := [104], path := [47, 97] },
+                      header := [⟨[88, 45, 65], [[32, 118, 32]]⟩], hasBody := true,
+                      body := [1, 2, 3, 4, 5], reads := [2] }
+    (serializeH1 r).toOption.bind (fun w => parseRequestH1 (w ++ [71, 69, 84])) =
+      some (view r [104] ⟨true, true, -1⟩, [71, 69, 84]) := by decide
+
+/-- **no CR / LF injection through header values**: whatever bytes a caller (or the transport's
+extra headers) supplies as a header value, the value written to the wire contains neither CR nor
+LF — it cannot end the line it is on. -/
+theorem header_value_no_crlf (v : Bytes) : ∀ b ∈ sanitizeValue v, b ≠ 13 ∧ b ≠ 10 :=
+  sanitizeValue_no_crlf v
+
+/-- **smuggling corollary**: a `Valid` request followed by ANY bytes is read as that one request
+followed by exactly those bytes; in particular the serialisation itself (`rest = []`) is consumed
+entirely — it contains no second request. -/
+theorem h1_exactly_one_request (r : WReq) (wire host : Bytes) (f : Framing)
+    (hh : wireHost r = .ok host) (hf : framing r = .ok f) (hs : serializeH1 r = .ok wire)
+    (hv : Valid r host f) :
+    parseRequestH1 wire = some (view r host f, []) := by
+  have := h1_fidelity r wire host f hh hf hs hv []
+  simpa using this
+
+/-- **chunked body framing round trip** (any body, any sequence of read sizes, any tail). -/
+theorem body_framing_chunked (body : Bytes) (reads : List Nat) (rest : Bytes) :
+    decodeBody .chunked (chunkedBody body reads ++ rest) = some (body, rest) :=
+  decodeBody_chunked body reads rest
+
+/-- the chunks are exactly a split of the body: concatenated they give it back. -/
+theorem body_framing_total (body : Bytes) (reads : List Nat) :
+    (splitReads body reads).flatten = body ∧ ∀ p ∈ splitReads body reads, p ≠ [] :=
+  splitReads_spec reads body
+
+end H1
 
 end Req.Props.C01
